@@ -111,3 +111,9 @@ CORPUS += [
     Mut('c08-benign-impossible-genealogies-judged-by-the-count-before-the-event', 'torchtree/evolution/coalescent.py', 'ConstantCoalescent.log_prob', 'lchoose2 = lineage_count * (lineage_count - 1) / 2.0',
         'lchoose2 = lineage_count * (lineage_count - 1) / 2.0\nimpossible = torch.any((node_mask_sorted[..., 1:] == -1) & (lineage_count < 2), -1, keepdim=True)', benign=True),
 ]
+CORPUS += [
+    Mut('c08-skygrid-model-keeps-the-grid-values-of-construction', 'torchtree/evolution/coalescent.py', 'PiecewiseConstantCoalescentGridModel.__init__', 'self.grid = grid', 'self.grid = grid.tensor',
+        expect=[('C08.M', 'PiecewiseConstantCoalescentGridModel.__init__::self.grid-is-not-a-snapshot-of-a-parameter')]),
+    Mut('c08-sampling-times-rounded-before-merging', 'torchtree/evolution/coalescent.py', '', "                node_heights[..., :taxa_count], return_counts=True, dim=-1\n",
+        "                torch.round(node_heights[..., :taxa_count], decimals=6), return_counts=True, dim=-1\n", mode='text', expect=[('C08.T', 'coalescent::PiecewiseLinearCoalescentGrid.log_prob::')]),
+]
